@@ -42,6 +42,26 @@ theorem unpack_short (buf : Bytes) (h : buf.length < 16) : Decimal128.unpack buf
     simp only [h2, if_true]
   simp only [Decimal128.unpack, h15, bind, Except.bind]
 
+/-- the `for i in range(13, -1, -1)` loop, one iteration at a time (a changed loop body fails here at once): over any list of
+    in-range indices it is the model's `unpackLoop` over the bytes at those indices. -/
+theorem unpack_for1 (buf : Bytes) : ∀ (idx : List Nat) (m : Nat), (∀ i ∈ idx, i < buf.length) →
+    unpack_decimal128.for1 buf (idx.map (fun (k : Nat) => (k : Int))) (m : Int)
+      = .ok ((unpackLoop (idx.map (fun k => buf.getD k 0)) m : Nat) : Int) := by
+  intro idx
+  induction idx with
+  | nil => intro m _; rfl
+  | cons i t ih =>
+    intro m h
+    have hi : i < buf.length := h i (List.mem_cons_self ..)
+    simp only [List.map_cons, unpack_decimal128.for1]
+    rw [byteAt_nat buf i (i : Int) rfl hi]
+    simp only [bind, Except.bind]
+    have e : (m : Int) * 256 + (buf[i].toNat : Int) = ((m * 256 + buf[i].toNat : Nat) : Int) := by
+      rw [Int.natCast_add, Int.natCast_mul]; rfl
+    rw [e, ih _ (fun j hj => h j (List.mem_cons_of_mem _ hj))]
+    have hg : buf.getD i 0 = buf[i] := by simp [List.getD, List.getElem?_eq_getElem hi]
+    simp only [unpackLoop, hg]
+
 /-- what the model's record looks like to the final `float(f"{mantissa}E{exp}")`: sign flag, signed mantissa, exponent -/
 def decView (d : Dec) : Int × Int × Int :=
   ((if d.sign then 1 else 0), (if d.sign then -(d.coeff : Int) else (d.coeff : Int)), d.exp)
@@ -51,35 +71,21 @@ theorem unpack_decimal128_eq_model (buf : Bytes) :
   rcases buf with _ | ⟨b0, _ | ⟨b1, _ | ⟨b2, _ | ⟨b3, _ | ⟨b4, _ | ⟨b5, _ | ⟨b6, _ | ⟨b7, _ | ⟨b8, _ | ⟨b9, _ | ⟨b10, _ |
     ⟨b11, _ | ⟨b12, _ | ⟨b13, _ | ⟨b14, _ | ⟨b15, rest⟩⟩⟩⟩⟩⟩⟩⟩⟩⟩⟩⟩⟩⟩⟩⟩
   case cons.cons.cons.cons.cons.cons.cons.cons.cons.cons.cons.cons.cons.cons.cons.cons =>
-    have i0 : PyT.byteAt (b0 :: b1 :: b2 :: b3 :: b4 :: b5 :: b6 :: b7 :: b8 :: b9 :: b10 :: b11 :: b12 :: b13 :: b14 :: b15 :: rest) 0 = .ok (b0.toNat : Int) := byteAt_nat _ 0 0 rfl (by simp)
-    have i1 : PyT.byteAt (b0 :: b1 :: b2 :: b3 :: b4 :: b5 :: b6 :: b7 :: b8 :: b9 :: b10 :: b11 :: b12 :: b13 :: b14 :: b15 :: rest) 1 = .ok (b1.toNat : Int) := byteAt_nat _ 1 1 rfl (by simp)
-    have i2 : PyT.byteAt (b0 :: b1 :: b2 :: b3 :: b4 :: b5 :: b6 :: b7 :: b8 :: b9 :: b10 :: b11 :: b12 :: b13 :: b14 :: b15 :: rest) 2 = .ok (b2.toNat : Int) := byteAt_nat _ 2 2 rfl (by simp)
-    have i3 : PyT.byteAt (b0 :: b1 :: b2 :: b3 :: b4 :: b5 :: b6 :: b7 :: b8 :: b9 :: b10 :: b11 :: b12 :: b13 :: b14 :: b15 :: rest) 3 = .ok (b3.toNat : Int) := byteAt_nat _ 3 3 rfl (by simp)
-    have i4 : PyT.byteAt (b0 :: b1 :: b2 :: b3 :: b4 :: b5 :: b6 :: b7 :: b8 :: b9 :: b10 :: b11 :: b12 :: b13 :: b14 :: b15 :: rest) 4 = .ok (b4.toNat : Int) := byteAt_nat _ 4 4 rfl (by simp)
-    have i5 : PyT.byteAt (b0 :: b1 :: b2 :: b3 :: b4 :: b5 :: b6 :: b7 :: b8 :: b9 :: b10 :: b11 :: b12 :: b13 :: b14 :: b15 :: rest) 5 = .ok (b5.toNat : Int) := byteAt_nat _ 5 5 rfl (by simp)
-    have i6 : PyT.byteAt (b0 :: b1 :: b2 :: b3 :: b4 :: b5 :: b6 :: b7 :: b8 :: b9 :: b10 :: b11 :: b12 :: b13 :: b14 :: b15 :: rest) 6 = .ok (b6.toNat : Int) := byteAt_nat _ 6 6 rfl (by simp)
-    have i7 : PyT.byteAt (b0 :: b1 :: b2 :: b3 :: b4 :: b5 :: b6 :: b7 :: b8 :: b9 :: b10 :: b11 :: b12 :: b13 :: b14 :: b15 :: rest) 7 = .ok (b7.toNat : Int) := byteAt_nat _ 7 7 rfl (by simp)
-    have i8 : PyT.byteAt (b0 :: b1 :: b2 :: b3 :: b4 :: b5 :: b6 :: b7 :: b8 :: b9 :: b10 :: b11 :: b12 :: b13 :: b14 :: b15 :: rest) 8 = .ok (b8.toNat : Int) := byteAt_nat _ 8 8 rfl (by simp)
-    have i9 : PyT.byteAt (b0 :: b1 :: b2 :: b3 :: b4 :: b5 :: b6 :: b7 :: b8 :: b9 :: b10 :: b11 :: b12 :: b13 :: b14 :: b15 :: rest) 9 = .ok (b9.toNat : Int) := byteAt_nat _ 9 9 rfl (by simp)
-    have i10 : PyT.byteAt (b0 :: b1 :: b2 :: b3 :: b4 :: b5 :: b6 :: b7 :: b8 :: b9 :: b10 :: b11 :: b12 :: b13 :: b14 :: b15 :: rest) 10 = .ok (b10.toNat : Int) := byteAt_nat _ 10 10 rfl (by simp)
-    have i11 : PyT.byteAt (b0 :: b1 :: b2 :: b3 :: b4 :: b5 :: b6 :: b7 :: b8 :: b9 :: b10 :: b11 :: b12 :: b13 :: b14 :: b15 :: rest) 11 = .ok (b11.toNat : Int) := byteAt_nat _ 11 11 rfl (by simp)
-    have i12 : PyT.byteAt (b0 :: b1 :: b2 :: b3 :: b4 :: b5 :: b6 :: b7 :: b8 :: b9 :: b10 :: b11 :: b12 :: b13 :: b14 :: b15 :: rest) 12 = .ok (b12.toNat : Int) := byteAt_nat _ 12 12 rfl (by simp)
-    have i13 : PyT.byteAt (b0 :: b1 :: b2 :: b3 :: b4 :: b5 :: b6 :: b7 :: b8 :: b9 :: b10 :: b11 :: b12 :: b13 :: b14 :: b15 :: rest) 13 = .ok (b13.toNat : Int) := byteAt_nat _ 13 13 rfl (by simp)
     have i14 : PyT.byteAt (b0 :: b1 :: b2 :: b3 :: b4 :: b5 :: b6 :: b7 :: b8 :: b9 :: b10 :: b11 :: b12 :: b13 :: b14 :: b15 :: rest) 14 = .ok (b14.toNat : Int) := byteAt_nat _ 14 14 rfl (by simp)
     have i15 : PyT.byteAt (b0 :: b1 :: b2 :: b3 :: b4 :: b5 :: b6 :: b7 :: b8 :: b9 :: b10 :: b11 :: b12 :: b13 :: b14 :: b15 :: rest) 15 = .ok (b15.toNat : Int) := byteAt_nat _ 15 15 rfl (by simp)
-    have hr : PyT.range3 13 (-(1 : Int)) (-(1 : Int)) = .ok [13, 12, 11, 10, 9, 8, 7, 6, 5, 4, 3, 2, 1, 0] := by decide
+    have hr : PyT.range3 13 (-(1 : Int)) (-(1 : Int))
+        = .ok (([13, 12, 11, 10, 9, 8, 7, 6, 5, 4, 3, 2, 1, 0] : List Nat).map (fun (k : Nat) => (k : Int))) := by decide
     have p15 : pyIndex (b0 :: b1 :: b2 :: b3 :: b4 :: b5 :: b6 :: b7 :: b8 :: b9 :: b10 :: b11 :: b12 :: b13 :: b14 :: b15 :: rest) 15 = .ok b15 := pyIndex_nat _ 15 (by simp)
     have p14 : pyIndex (b0 :: b1 :: b2 :: b3 :: b4 :: b5 :: b6 :: b7 :: b8 :: b9 :: b10 :: b11 :: b12 :: b13 :: b14 :: b15 :: rest) 14 = .ok b14 := pyIndex_nat _ 14 (by simp)
+    have hloop := unpack_for1 (b0 :: b1 :: b2 :: b3 :: b4 :: b5 :: b6 :: b7 :: b8 :: b9 :: b10 :: b11 :: b12 :: b13 :: b14 :: b15 :: rest) [13, 12, 11, 10, 9, 8, 7, 6, 5, 4, 3, 2, 1, 0] (b14.toNat &&& 1)
+      (by intro i hi; simp only [List.length_cons]; simp only [List.mem_cons, List.not_mem_nil, or_false] at hi; omega)
+    have hm : unpackLoop (([13, 12, 11, 10, 9, 8, 7, 6, 5, 4, 3, 2, 1, 0] : List Nat).map (fun k => (b0 :: b1 :: b2 :: b3 :: b4 :: b5 :: b6 :: b7 :: b8 :: b9 :: b10 :: b11 :: b12 :: b13 :: b14 :: b15 :: rest).getD k 0))
+        (b14.toNat &&& 1) = unpackLoop (List.take 14 (b0 :: b1 :: b2 :: b3 :: b4 :: b5 :: b6 :: b7 :: b8 :: b9 :: b10 :: b11 :: b12 :: b13 :: b14 :: b15 :: rest)).reverse (b14.toNat &&& 1) := rfl
+    rw [hm] at hloop
     unfold unpack_decimal128 Decimal128.unpack
-    simp only [i0, i1, i2, i3, i4, i5, i6, i7, i8, i9, i10, i11, i12, i13, i14, i15, hr, p14, p15, unpack_decimal128.for1,
-      bind, Except.bind, pure, Except.pure, bitAnd_nat _ 127 127 rfl, bitAnd_nat _ 1 1 rfl, bitAnd_nat _ 128 128 rfl,
-      shl_nat _ 7 7 rfl, shr_nat _ 1 1 rfl, bitOr_nat, Except.map]
-    have hm : unpackLoop (List.take 14 (b0 :: b1 :: b2 :: b3 :: b4 :: b5 :: b6 :: b7 :: b8 :: b9 :: b10 :: b11 :: b12 :: b13 :: b14 :: b15 :: rest)).reverse (b14.toNat &&& 1)
-        = (((((((((((((((b14.toNat &&& 1) * 256 + b13.toNat) * 256 + b12.toNat) * 256 + b11.toNat) * 256 + b10.toNat) * 256
-            + b9.toNat) * 256 + b8.toNat) * 256 + b7.toNat) * 256 + b6.toNat) * 256 + b5.toNat) * 256 + b4.toNat) * 256
-            + b3.toNat) * 256 + b2.toNat) * 256 + b1.toNat) * 256 + b0.toNat) := rfl
-    have h256 : ((256 : Nat) : Int) = 256 := rfl
-    simp only [decView, Gen.DECIMAL128_BIAS, hm, Int.natCast_add, Int.natCast_mul, h256]
+    simp only [i14, i15, hr, p14, p15, bind, Except.bind, pure, Except.pure, bitAnd_nat _ 127 127 rfl, bitAnd_nat _ 1 1 rfl,
+      bitAnd_nat _ 128 128 rfl, shl_nat _ 7 7 rfl, shr_nat _ 1 1 rfl, bitOr_nat, Except.map, hloop]
+    simp only [decView, Gen.DECIMAL128_BIAS]
     by_cases hs : b15.toNat &&& 128 = 0
     · have d1 : (decide ((((0 : Nat)) : Int) ≠ 0)) = false := by decide
       have d2 : (decide ((0 : Int) = 1)) = false := by decide
